@@ -71,6 +71,9 @@ pub struct Gen<'a> {
     iterators: Vec<String>,
     /// statements that must follow the one just generated (top level only)
     pending: Vec<Stmt>,
+    /// parameters of the function being generated: their declared types are their static types exactly
+    /// (the declared type of any other variable is only an upper bound of its static type)
+    params: Vec<(String, Ty)>,
 }
 
 fn is_counter(name: &str) -> bool {
@@ -91,7 +94,7 @@ fn scalar_types() -> [Ty; 4] {
 
 impl<'a> Gen<'a> {
     pub fn new(tape: &'a mut Tape, p: Profile) -> Self {
-        Self { tape, p, scopes: vec![vec![]], tick_types: vec![], next_tick: 1, fresh: 0, fn_ret: None, in_loop: false, labels: vec![], budget: 400, iterators: vec![], pending: vec![] }
+        Self { tape, p, scopes: vec![vec![]], tick_types: vec![], next_tick: 1, fresh: 0, fn_ret: None, in_loop: false, labels: vec![], budget: 400, iterators: vec![], pending: vec![], params: vec![] }
     }
 
     fn label(&mut self, l: &'static str) {
@@ -209,7 +212,11 @@ impl<'a> Gen<'a> {
                 _ => Ty::cell(Ty::arr(a)),
             };
         }
-        match self.tape.weighted(&[8, 2, 1, 1]) {
+        match self.tape.weighted(&[8, 2, 1, 1, 1]) {
+            4 => {
+                let (a, b) = (self.gen_scalar_ty(), self.gen_scalar_ty());
+                Ty::cell(a.or(b))
+            }
             0 => self.gen_scalar_ty(),
             1 => Ty::Tup(vec![self.gen_scalar_ty(), self.gen_scalar_ty()]),
             2 => {
@@ -609,6 +616,16 @@ impl<'a> Gen<'a> {
             1 => self.var_of_type(&Ty::Bool).unwrap_or_else(|| self.lit(&Ty::Bool)),
             2 => {
                 let op = *self.tape.pick(&["<", "<=", ">", ">=", "==", "!="]);
+                let cells = self.writable_cells(|t| *t == Ty::cell(Ty::Int));
+                if !cells.is_empty() && self.tape.chance(1, 5) {
+                    // one operand reads a cell, the other writes it: left to right
+                    let c = cells[self.tape.below(cells.len())].name.clone();
+                    self.label("cell read compared with an assignment to the same cell");
+                    let read = Expr::Deref(Box::new(Expr::Var(c.clone())));
+                    let aop = *self.tape.pick(&["=", "+=", "*="]);
+                    let write = Expr::Assign(aop, Box::new(Expr::Var(c)), Box::new(self.lit(&Ty::Int)));
+                    return if self.tape.bool() { Expr::Bin(op, Box::new(read), Box::new(write)) } else { Expr::Bin(op, Box::new(write), Box::new(read)) };
+                }
                 Expr::Bin(op, Box::new(self.expr(&Ty::Int, depth - 1)), Box::new(self.expr(&Ty::Int, depth - 1)))
             }
             3 => {
@@ -722,6 +739,14 @@ impl<'a> Gen<'a> {
                 let (s, e) = self.slice_bounds();
                 let step = if self.tape.chance(1, 3) { Some(Box::new(Expr::Int(*self.tape.pick(&[1i64, 2, -1, -2, 0])))) } else { None };
                 Expr::Slice(Box::new(self.expr(&t, depth - 1)), s, e, step)
+            }
+            _ if matches!(elem, Ty::Int | Ty::Str | Ty::Float | Ty::Bool) && self.tape.chance(1, 3) => {
+                // one half of a partition: the predicate is applied to each element as it is pulled
+                let it = self.iter_expr(elem, depth - 1);
+                let p = self.lambda(std::slice::from_ref(elem), &Ty::Bool, depth.min(1));
+                let p = self.maybe_tick(p, &Ty::fun(vec![elem.clone()], Ty::Bool));
+                self.label("partition");
+                Expr::TupleAt(Box::new(Expr::Partition(Box::new(it), Box::new(p))), self.tape.below(2))
             }
             _ => {
                 // collect an iterator pipeline
@@ -884,6 +909,7 @@ impl<'a> Gen<'a> {
         for (n, t) in params {
             self.declare(n, t.clone());
         }
+        let saved_params = std::mem::replace(&mut self.params, params.to_vec());
         let mut body = vec![];
         let n = if depth == 0 { 0 } else { self.tape.below(3) };
         for _ in 0..n {
@@ -908,6 +934,7 @@ impl<'a> Gen<'a> {
             body.push(Stmt::Return(Some(Box::new(Stmt::Expr(value)))));
         }
         self.scopes.pop();
+        self.params = saved_params;
         self.fn_ret = saved_ret;
         self.in_loop = saved_loop;
         body
@@ -956,6 +983,21 @@ impl<'a> Gen<'a> {
                     self.label("array of one repeated cell");
                     self.declare(&name, Ty::arr(Ty::cell(Ty::Int)));
                     return Stmt::Let(name, Box::new(Stmt::Expr(Expr::Repeat(Box::new(Expr::MutNew(Ty::Int, Box::new(init))), Box::new(Expr::Int(n))))));
+                }
+                // `mut x` without a declared type, x a variable whose static type is a union: the cell is a
+                // `mut (A|B)` whatever x turns out to be
+                let unions: Vec<Var> = self
+                    .params
+                    .clone()
+                    .into_iter()
+                    .filter(|(n, t)| matches!(t, Ty::Union(ms) if ms.iter().all(|m| matches!(m, Ty::Int | Ty::Bool | Ty::Str | Ty::Float))) && self.lookup(n) == Some(t))
+                    .map(|(name, ty)| Var { name, ty })
+                    .collect();
+                if !unions.is_empty() && self.tape.chance(1, 2) {
+                    let u = unions[self.tape.below(unions.len())].clone();
+                    self.label("cell without a declared type from a union-typed variable");
+                    self.declare(&name, Ty::cell(u.ty.clone()));
+                    return Stmt::Let(name, Box::new(Stmt::Expr(Expr::MutAuto(u.ty.clone(), Box::new(Expr::Var(u.name))))));
                 }
                 let inner = match self.tape.weighted(&[5, 2, 2, 1, 2]) {
                     0 => Ty::Int,
@@ -1381,10 +1423,26 @@ impl<'a> Gen<'a> {
                 } else {
                     self.iter_expr(&elem, depth.saturating_sub(1))
                 };
+                // now and then the iterator is read from a cell that the body overwrites with another
+                // iterator: the loop keeps the one it started with
+                let mut prelude_cell = None;
+                let it = if !mixed && self.tape.chance(1, 6) {
+                    let cell = self.fresh_name("ci");
+                    self.label("for over an iterator read from a cell that the body reassigns");
+                    prelude_cell = Some((cell.clone(), Stmt::Let(cell.clone(), Box::new(Stmt::Expr(Expr::MutNew(Ty::iter_of(elem.clone()), Box::new(it)))))));
+                    Expr::Deref(Box::new(Expr::Var(cell)))
+                } else {
+                    it
+                };
                 let var = self.binder_name();
                 self.scopes.push(vec![]);
-                self.declare(&var, elem);
+                self.declare(&var, elem.clone());
                 let mut body = vec![];
+                if let Some((cell, _)) = &prelude_cell {
+                    // (generated inside the body's scope: the loop variable may hide an outer name)
+                    let other = self.iter_expr(&elem, depth.saturating_sub(1));
+                    body.push(Stmt::Expr(Expr::Assign("=", Box::new(Expr::Var(cell.clone())), Box::new(other))));
+                }
                 if mixed {
                     self.label("match repeated on values of different types");
                     body.push(self.match_on(Expr::Var(var.clone()), members, depth.saturating_sub(1), None));
@@ -1395,7 +1453,13 @@ impl<'a> Gen<'a> {
                     }
                 }
                 self.scopes.pop();
-                Stmt::For(var, it, Box::new(Stmt::Block(body)))
+                let for_stmt = Stmt::For(var, it, Box::new(Stmt::Block(body)));
+                if let Some((_, decl)) = prelude_cell {
+                    self.in_loop = saved;
+                    self.scopes.pop();
+                    return Stmt::Block(vec![decl, Stmt::Let(counter.clone(), Box::new(Stmt::Expr(Expr::MutNew(Ty::Int, Box::new(Expr::Int(0)))))), for_stmt]);
+                }
+                for_stmt
             }
             _ => {
                 // while v: int = <int until the counter runs out, then a string> { body }
@@ -1535,6 +1599,17 @@ impl<'a> Gen<'a> {
         self.label("match");
         let st = Ty::union(members.clone());
         let mut arms = vec![];
+        if let Some(Ty::Mut(inner)) = members.iter().find(|m| matches!(m, Ty::Mut(i) if matches!(**i, Ty::Int | Ty::Bool | Ty::Str | Ty::Float)))
+            && self.tape.bool()
+        {
+            // cells are invariant: a `mut (A|B)` arm does not take a `mut A` cell
+            let other = self.gen_scalar_ty();
+            let wide = Ty::cell((**inner).clone().or(if other == **inner { Ty::Void } else { other }));
+            if !members.contains(&wide) {
+                self.label("arm for a wider cell type first");
+                arms.push(self.type_arm(wide, depth, value));
+            }
+        }
         // value arms first
         for _ in 0..self.tape.below(3) {
             let n = 1 + self.tape.below(2);
